@@ -268,11 +268,11 @@ def initResFJson : Except InitErrF (Option St) → String
   | .error .loadIO => "loadIO"
   | .error (.load e) => loadErrStr e
 
-def runCallsFJ (fs : FS) (mem : Mem St) : List Json → FS × Mem St × List Json
-  | [] => (fs, mem, [])
+def runCallsFJ (fs : FS) (mem : Mem St) (t : Bool) : List Json → FS × Mem St × List Json × Bool
+  | [] => (fs, mem, [], t)
   | j :: rest =>
     match callOf j with
-    | none => let r := runCallsFJ fs mem rest; (r.1, r.2.1, err "bad-call" :: r.2.2)
+    | none => let r := runCallsFJ fs mem t rest; (r.1, r.2.1, err "bad-call" :: r.2.2.1, r.2.2.2)
     | some cl =>
       let r := callStepF apiCfg mem (saveFaultOf j) cl
       let fs' := applyEvs fs r.2.1
@@ -281,11 +281,11 @@ def runCallsFJ (fs : FS) (mem : Mem St) : List Json → FS × Mem St × List Jso
         | _ => false
       let reply := Json.mkObj [("ops", opsJson apiSnap r.2.1), ("raised", Json.num r.2.2), ("keyError", Json.bool keyErr),
         ("files", filesJson apiSnap fs'), ("cur", stJson r.1.cur)]
-      let r' := runCallsFJ fs' r.1 rest
-      (r'.1, r'.2.1, reply :: r'.2.2)
+      let r' := runCallsFJ fs' r.1 (t || savedBy apiCfg mem (saveFaultOf j) cl) rest
+      (r'.1, r'.2.1, reply :: r'.2.2.1, r'.2.2.2)
 
 def runSessionFJ (fs : FS) (j : Json) : FS × Json :=
-  let i := initF apiCfg fs (initFaultOf (j.getObjValD "init"))
+  let i := initF apiCfg verifyUntrusted fs (initFaultOf (j.getObjValD "init"))
   let fs1 := applyEvs fs i.evs
   let initJ := Json.mkObj [("res", Json.str (initResFJson i.res)), ("locked", Json.bool i.locked),
     ("ops", opsJson apiSnap i.evs), ("files", filesJson apiSnap fs1)]
@@ -295,13 +295,13 @@ def runSessionFJ (fs : FS) (j : Json) : FS × Json :=
     let crash := j.getObjValD "crash"
     let calls := getArr j "calls"
     let calls := match crash with | .obj _ => calls.take (getNat crash "cut_calls") | _ => calls
-    let (fs2, mem, replies) := runCallsFJ fs1 (memOf apiCfg x) calls
+    let (fs2, mem, replies, trusted) := runCallsFJ fs1 (memOf apiCfg x) false calls
     match crash with
     | .obj _ =>
       let fs3 := recover fs2 (garbleOf (crash.getObjValD "garble"))
       (fs3, Json.mkObj [("init", initJ), ("calls", Json.arr replies.toArray), ("crashed", filesJson apiSnap fs3)])
     | _ =>
-      let fe := finalizeF fs2 mem i.locked (finFaultOf (j.getObjValD "fin"))
+      let fe := finalizeF verifyUntrusted fs2 mem i.locked trusted (finFaultOf (j.getObjValD "fin"))
       let fs3 := applyEvs fs2 fe
       (fs3, Json.mkObj [("init", initJ), ("calls", Json.arr replies.toArray),
         ("fin", Json.mkObj [("ops", opsJson apiSnap fe), ("raised", Json.bool (!finalizeOk mem)),
@@ -324,6 +324,7 @@ def main : IO Unit := runPure fun j =>
     let fsr := r.1.set .lock none
     let i := initRun apiCfg fsr
     Json.mkObj [("sessions", Json.arr r.2.toArray), ("files", filesJson apiSnap r.1),
+      ("verifyUntrusted", Json.bool verifyUntrusted),
       ("fresh", Json.mkObj (initResJson stJson i.res))]
   | "enc" => Json.mkObj [("hex", Bytes.toHex (enc (hexBytes j "hex")))]
   | "verify" => Json.mkObj [("ok", Json.bool (verify (hexBytes j "hex")))]
